@@ -55,6 +55,10 @@ type Case struct {
 	Seed   int64
 	Procs  int // GOMAXPROCS of the child; the pipeline runs 2*Procs processors
 	Topics []TopicSpec
+	// TopicList is the `topics` list given to the plugin when it is not just
+	// the names of Topics in order: it may name a topic more than once (the
+	// property quantifies over all topics lists). Records exist once per name.
+	TopicList []string
 	// what is put on the topics
 	MudPct, BadPct, BigPct int // empty values / unparsable JSON / over max_event_size
 	DiscardPct             int // script action discards
@@ -76,6 +80,29 @@ type Case struct {
 	StopAtPct     int // stop-early: the input is stopped when this share of the records has been handed
 	GridPartOrder int // grid: 0 forward, 1 reverse start
 	Trace         bool
+}
+
+// configTopics is the plugin's `topics` setting of the case.
+func (cs *Case) configTopics() []string {
+	if len(cs.TopicList) > 0 {
+		return cs.TopicList
+	}
+	var out []string
+	for _, t := range cs.Topics {
+		out = append(out, t.Name)
+	}
+	return out
+}
+
+func (cs *Case) hasRepeatedTopics() bool {
+	seen := map[string]bool{}
+	for _, t := range cs.configTopics() {
+		if seen[t] {
+			return true
+		}
+		seen[t] = true
+	}
+	return false
 }
 
 // ---------------- records ----------------
